@@ -174,7 +174,20 @@ template<typename K, int KIND> struct Runner
       first = false;
       slotOf(t, i);
     }
-    printf("]");
+    // the links around the end sentinel: E = the item endItem.prev designates, T = the container variable whose
+    // sentinel the list runs into (followed from _begin.item through the next links)
+    printf("],E=");
+    if(t.endItem.prev) slotOf(t, t.endItem.prev); else printf("-");
+    printf(",T=");
+    {
+      const Item* i = t._begin.item;
+      long owner = -1;
+      for(cnt = 0; i && cnt < bound && owner < 0; ++cnt) {
+        for(int j = 0; j < n; ++j) if(i == &v[j]->endItem) owner = j;
+        if(owner < 0) i = i->next;
+      }
+      if(owner >= 0) printf("%ld", owner); else printf("?");
+    }
   }
 
   static bool var(vh::Tok& t, int i, long& x) { if(i >= t.n) return false; x = atol(t.v[i]); return x >= 0 && x < n; }
